@@ -1,3 +1,2 @@
 SPECIFICATION TSpec
-CONSTANT Deviations = {}
 POSTCONDITION TraceAccepted
